@@ -128,6 +128,7 @@
         return;
       }
       if(typeof o==='function'){ try{ o(v); }catch(e1){} if(hasOwn(o,'prototype')&&o.prototype&&v%4===0) o.prototype['pk'+v]=v; return; }
+      if(c==='[object Error]'){ o.stack='pk'+v; if(v%2) o.message='pm'+v; }
       if(c==='[object RegExp]'){ reExec(o,'aaxaa'); return; }
       if(c==='[object Date]'){ dateSet(o,dateVal(o)+v+1); return; }
       if(c==='[object Array]'){
